@@ -172,7 +172,14 @@ pub fn run(rng: &mut Rng, n: usize, rep: &mut Report) {
         let unlisted = s.w.new_key();
         s.w.add_program(unlisted);
         let cx = Ctx { receiver, receiver_toks, risk_admin, unlisted };
-        for u in 0..2 {
+        // user 2: an account with no positions at all (health 0 — "not healthy" for the liquidation pre-condition)
+        while s.users.len() < 3 {
+            let wallet = s.w.add_wallet(1_000_000_000);
+            let acct = s.w.add_marginfi_account(s.group, wallet);
+            let toks = s.banks.clone().iter().map(|b| s.w.add_token_account(b.mint, wallet, 100_000_000_000_000)).collect();
+            s.users.push(crate::scen::User { wallet, acct, toks });
+        }
+        for u in 0..3 {
             if rng.chance(4, 5) {
                 let (a, r) = (s.users[u].acct, receiver);
                 s.w.add_liquidation_record(a, r);
@@ -196,8 +203,19 @@ pub fn run(rng: &mut Rng, n: usize, rep: &mut Report) {
             let seize_val = (seize as f64) * 10f64.powi(d1 - d0) * f; // in liability-token units (both base prices are 10)
             let repay = ((seize_val * *rng.pick(&[0.0f64, 0.5, 0.8, 0.9, 0.953, 0.96, 1.0, 1.0, 1.1, 1.3])) as u64).max(1);
             let mut tx: Vec<K> = vec![];
-            let kind = rng.below(10);
-            if kind < 6 {
+            let kind = rng.below(11);
+            if kind == 10 {
+                // two starts on DIFFERENT accounts in one transaction (the empty account 2 and the victim), one end
+                let (first, second) = if rng.chance(1, 2) { (2usize, u) } else { (u, 2usize) };
+                for _ in 0..rng.below(3) { tx.push(K::Cb) }
+                tx.push(K::StartLiq(first));
+                if rng.chance(1, 4) { tx.push(K::Cb) }
+                tx.push(K::StartLiq(second));
+                for _ in 0..rng.below(3) {
+                    tx.push(if rng.chance(1, 2) { K::Withdraw(u, seize) } else { K::Repay(u, repay) });
+                }
+                tx.push(K::EndLiq(if rng.chance(3, 4) { first } else { second }));
+            } else if kind < 6 {
                 // receivership bracket (liq or deleverage)
                 let liq = rng.chance(3, 4);
                 if rng.chance(1, 3) { tx.push(K::Cb) }
@@ -250,7 +268,7 @@ pub fn run(rng: &mut Rng, n: usize, rep: &mut Report) {
             }
             let ixs: Vec<Instruction> = tx.iter().map(|k| build_ix(&s, &cx, k)).collect();
             let pre_store = s.w.accounts.clone();
-            let pre_h: Vec<Option<Health>> = (0..2).map(|i| health(&s.w, &s.users[i].acct)).collect();
+            let pre_h: Vec<Option<Health>> = (0..3).map(|i| health(&s.w, &s.users[i].acct)).collect();
             let r = s.w.exec_tx(&ixs);
             rep.bump("cases");
             done += 1;
@@ -266,7 +284,7 @@ pub fn run(rng: &mut Rng, n: usize, rep: &mut Report) {
                 Ok(()) => {
                     rep.bump("tx_ok");
                     // ---- flags never survive a committed transaction
-                    for i in 0..2 {
+                    for i in 0..3 {
                         let a = s.w.marginfi_account(&s.users[i].acct);
                         if a.account_flags & ACCOUNT_IN_RECEIVERSHIP != 0 {
                             rep.fail(format!("C10 receivership-survives-transaction: account {} still flagged ACCOUNT_IN_RECEIVERSHIP after committed tx {:?}", i, tx));
